@@ -302,6 +302,17 @@ def all_index_cases(ic: IndexChecker, rng):
 			if dt.kind == 'u' and any(i < 0 for i in seq):
 				continue
 			ic.expect_sub(np.array(seq, dtype=dt), exp, f'intarray:{dtn}')
+	# range objects are integer sequences too (NOT slices: negative members count from the end, members outside [-n, n) raise)
+	for a in range(-n - 2, n + 3):
+		for b in range(-n - 2, n + 3):
+			for st in (1, -1, 2, -2):
+				r = range(a, b, st)
+				if len(r) == 0 and (a, b) != (0, 0):
+					continue
+				if all(-n <= i < n for i in r):
+					ic.expect_sub(r, [L[i] for i in r], 'range-object')
+				else:
+					ic.expect_raise(r, 'range-object-oob')
 	# out of range members
 	for seq in ([n], [-n - 1], [0, n] if n else [1], [n + 5, 0] if n else [5], [-n - 2]):
 		ic.expect_raise(list(seq), 'intlist-oob')
@@ -685,7 +696,7 @@ def run_shard(sh, ctx):
 def finalize(merged, tier, seed, inconclusive):
 	c = merged['counters']
 	for n in ['class:slice', 'class:mask-ndarray', 'class:mask-wrong-length', 'class:intarray:u8', 'class:intarray:i1', 'class:int:np.u8', 'class:int-oob:int',
-	          'class:illtyped', 'class:slice-illtyped', 'class:aliasing', 'held_subcollections_of_a_mutable_parent', 'class:nested:as-is', 'class:nested-slice', 'class:long-iter', 'class:shared-buffer:array.array', 'class:shared-buffer:__array__', 'long-negative:i1', 'long-negative:i2', 'long-eq:file-vs-file', 'histories', 'op:setslice', 'op:delslice', 'oob_mutations_refused', 'eq:same', 'eq:k', 'eq:prefix', 'eq:elem', 'eq:dtype', 'eq:boundary']:
+	          'class:illtyped', 'class:slice-illtyped', 'class:aliasing', 'held_subcollections_of_a_mutable_parent', 'class:range-object', 'class:range-object-oob', 'class:nested:as-is', 'class:nested-slice', 'class:long-iter', 'class:shared-buffer:array.array', 'class:shared-buffer:__array__', 'long-negative:i1', 'long-negative:i2', 'long-eq:file-vs-file', 'histories', 'op:setslice', 'op:delslice', 'oob_mutations_refused', 'eq:same', 'eq:k', 'eq:prefix', 'eq:elem', 'eq:dtype', 'eq:boundary']:
 		if c.get(n, 0) == 0:
 			inconclusive.append(f'class never observed: {n}')
 	return dict(exhaustive=True, exhaustive_note='index-* shards enumerate every int, slice and (for n<=5) mask over the stated ranges for collection lengths 0..7; histories and equality pairs are sampled')
